@@ -35,7 +35,7 @@ def _gen(args):
     h = []
     for a in sc["h"]:
         a = dict(a)
-        if a["op"] == "addSlide":
+        if a["op"] in ("addSlide", "dropPh", "movePh"):
             a["l"] = L.GEN_LAYOUT
         if a["op"] == "setGeom":
             a.update({"x": 0, "y": 0, "cx": 3456789, "cy": 456789} if (a["k"] + a["j"]) % 2 == 0 else {"x": 123456, "y": 0, "cx": 3456789, "cy": 456789})
@@ -53,6 +53,8 @@ def _corpus(args):
         h += [{"op": "notes", "k": len(prs.slides) + 1}, {"op": "addSlide", "l": 1}, {"op": "setGeom", "k": len(prs.slides) + 1, "j": 1, "x": 5, "y": 6, "cx": 7, "cy": 8},
               {"op": "reopen"}, {"op": "addSlide", "l": n}]
         first = L.layouts_of(prs)[1][0]
+        if len(first) >= 2:     # the first layout edited through its elements, then used again
+            h += [{"op": "movePh", "l": 1, "j": 1}, {"op": "addSlide", "l": 1}, {"op": "dropPh", "l": 1, "j": 1}, {"op": "addSlide", "l": 1}]
         if not [p for p in first if p["type"] not in ("dt", "ftr", "sldNum")]:
             h = [a for a in h if a["op"] != "setGeom"]
     return L.run(tid, path, h)
@@ -98,7 +100,7 @@ def main() -> int:
 
     def clean(t):
         return strip({"id": t["id"], "lay": t["lay"], "mas": t["mas"], "nmas": t["nmas"],
-                      "steps": [{k: s[k] for k in ("a", "out", "t", "notes")} for s in t["steps"]]})
+                      "steps": [{k: s[k] for k in ("a", "out", "t", "notes", "lay")} for s in t["steps"]]})
     if selftest:
         t = json.loads(json.dumps(clean(next(x for x in gt if len(x["steps"]) > 1 and x["steps"][1]["t"]["slides"] and x["steps"][1]["t"]["slides"][-1]["phs"]))))
         t["steps"][1]["t"]["slides"][-1]["phs"][0]["idx"] += 1
@@ -129,7 +131,7 @@ def main() -> int:
             # history class: the layout placeholder(s) a failing inheritance falls back to are carried by a p:pic without an a:xfrm
             # of its own (python-pptx wraps those in a Picture proxy, which has no master fallback)
             cls = ""
-            lay_phs = t["lay"][st["a"]["l"] - 1] if st["a"].get("l") else []
+            lay_phs = st["lay"]
             if clause == "PhInherit" and st["t"]["slides"]:
                 culprits = [q for q in st["t"]["slides"][-1]["phs"] if not q["own"] and not q["rd"]
                             and any(lp["idx"] == q["idx"] and lp.get("car") != "sp" and not lp["own"] for lp in lay_phs)]
